@@ -70,6 +70,34 @@ Proof.
   rewrite table_keys in I. unfold all_rows in I. now apply filter_In in I.
 Qed.
 
+(* the bucketed lookup is the lookup *)
+Lemma lookup_filter {V} (f : row -> bool) k (l : list (row * V)) :
+  f k = true -> lookup k (filter (fun kv => f (fst kv)) l) = lookup k l.
+Proof.
+  intros Hk. induction l as [|[k' v] l IH]; [reflexivity|]. cbn [filter fst lookup].
+  destruct (f k') eqn:Fk'; cbn [lookup].
+  - now rewrite IH.
+  - rewrite IH. destruct (row_eqb k k') eqn:E; [|reflexivity]. apply row_eqb_eq in E. subst. congruence.
+Qed.
+
+Lemma buckets_eq : buckets = map bucket (map N.of_nat (seq 0 16)).
+Proof. vm_compute. reflexivity. Qed.
+
+Lemma read_fast_eq r : read_fast r = read_outside r.
+Proof.
+  unfold read_fast, read_outside. destruct (N.ltb_spec (r_ty r) 16) as [Hlt|Hge].
+  - rewrite buckets_eq. rewrite map_map.
+    rewrite (nth_indep _ [] (bucket (N.of_nat 0))) by (rewrite map_length, seq_length; lia).
+    rewrite (map_nth (fun x => bucket (N.of_nat x))). rewrite seq_nth by lia. cbn [plus].
+    rewrite Nnat.N2Nat.id. unfold bucket. apply (lookup_filter (fun k => r_ty k =? r_ty r)). apply N.eqb_refl.
+  - rewrite nth_overflow by (rewrite buckets_eq, !map_length, seq_length; lia). cbn [lookup].
+    destruct (lookup r tab_outside) as [m|] eqn:L; [|reflexivity].
+    exfalso. assert (F : feasible r = true).
+    { apply lookup_in in L. assert (I : In r (map fst tab_outside)) by (apply in_map_iff; exists (r, m); auto).
+      rewrite table_keys in I. unfold all_rows in I. now apply filter_In in I. }
+    destruct (feasible_bounds r F). lia.
+Qed.
+
 (* ---- clauses checked on every entry of the table ------------------------------------------------------- *)
 
 Definition tab_all (P : row -> N -> bool) : bool := forallb (fun kv => P (fst kv) (snd kv)) tab_outside.
@@ -140,16 +168,31 @@ Lemma authfresh_true r : authfresh r = true ->
   r_ver r = true /\ r_idx r = true /\ r_full r = true /\ r_auth r = true /\ r_fresh r = true.
 Proof. unfold authfresh. rewrite !andb_true_iff. tauto. Qed.
 
+Lemma hs_no_close r m : read_outside r = Some m -> is_hs r = true -> has e_close m = false.
+Proof.
+  intros L H. pose proof (tab_all_read _ tab_hs_scope r m L) as S. cbn beta in S. rewrite H in S. cbn [implb] in S.
+  destruct (has e_close m) eqn:E; [|reflexivity]. pose proof (subset_has _ _ _ S E) as B. apply has_mask_of in B.
+  cbn in B. destruct B as [B|[B|[]]]; discriminate B.
+Qed.
+
+Lemma spec_f12_body r m : read_outside r = Some m -> is_hs r = false ->
+  has e_other m = false /  (subset m m_recverr || authfresh r || (f12_region r && subset m m_close)) = true /  implb (has e_close m) ((r_ty r =? t_close_tunnel) && authfresh r || f12_region r) = true.
+Proof.
+  intros L H. pose proof (tab_all_read _ tab_spec_f12 r m L) as S. unfold spec_ok_f12 in S. rewrite H in S.
+  cbn [orb] in S. apply andb_true_iff in S as [S S3]. apply andb_true_iff in S as [S1 S2].
+  apply negb_true_iff in S1. auto.
+Qed.
+
 Lemma gated r m e :
   read_outside r = Some m -> has e m = true -> e <> e_recverr ->
   authfresh r = true \/ r_ty r = t_handshake \/ r_ty r = t_recv_error.
 Proof.
-  intros L He Hne. pose proof (tab_all_read _ tab_spec_f12 r m L) as S. unfold spec_ok_f12 in S.
-  apply andb_true_iff in S as [S _]. apply andb_true_iff in S as [_ S].
-  rewrite !orb_true_iff in S. destruct S as [[[S|S]|S]|S].
+  intros L He Hne. destruct (is_hs r) eqn:Hh.
+  { right; left. unfold is_hs in Hh. now apply N.eqb_eq in Hh. }
+  destruct (spec_f12_body r m L Hh) as (_ & S & _).
+  rewrite !orb_true_iff in S. destruct S as [[S|S]|S].
   - exfalso. apply Hne. apply has_bit. exact (subset_has _ _ _ S He).
   - now left.
-  - apply andb_true_iff in S as [S _]. right; left. unfold is_hs in S. now apply N.eqb_eq in S.
   - apply andb_true_iff in S as [S _]. unfold f12_region in S. rewrite !andb_true_iff in S. destruct S as [[[S _] _] _].
     right; right. unfold is_re in S. now apply N.eqb_eq in S.
 Qed.
@@ -158,8 +201,10 @@ Lemma close_only r m :
   read_outside r = Some m -> has e_close m = true ->
   (r_ty r = t_close_tunnel /\ authfresh r = true) \/ f12_region r = true.
 Proof.
-  intros L Hc. pose proof (tab_all_read _ tab_spec_f12 r m L) as S. unfold spec_ok_f12 in S.
-  apply andb_true_iff in S as [_ S]. rewrite Hc in S. cbn in S. apply orb_true_iff in S as [S|S]; [left|now right].
+  intros L Hc. destruct (is_hs r) eqn:Hh.
+  { rewrite (hs_no_close r m L Hh) in Hc. discriminate. }
+  destruct (spec_f12_body r m L Hh) as (_ & _ & S). rewrite Hc in S. cbn [implb] in S.
+  apply orb_true_iff in S as [S|S]; [left|now right].
   apply andb_true_iff in S as [S1 S2]. split; [now apply N.eqb_eq in S1|exact S2].
 Qed.
 
@@ -175,10 +220,9 @@ Lemma unauth_inert r m :
   read_outside r = Some m -> authfresh r = false -> r_ty r <> t_handshake -> f12_region r = false ->
   subset m m_recverr = true.
 Proof.
-  intros L Ha Hh Hf. pose proof (tab_all_read _ tab_spec_f12 r m L) as S. unfold spec_ok_f12 in S.
-  apply andb_true_iff in S as [S _]. apply andb_true_iff in S as [_ S].
-  rewrite Ha, Hf in S. cbn [andb] in S. rewrite !orb_false_r in S. apply orb_true_iff in S as [S|S]; [exact S|].
-  apply andb_true_iff in S as [S _]. unfold is_hs in S. apply N.eqb_eq in S. contradiction.
+  intros L Ha Hh Hf. assert (H : is_hs r = false) by (unfold is_hs; now apply N.eqb_neq).
+  destruct (spec_f12_body r m L H) as (_ & S & _).
+  rewrite Ha, Hf in S. cbn [andb] in S. now rewrite !orb_false_r in S.
 Qed.
 
 (* ---- histories -------------------------------------------------------------------------------------------- *)
